@@ -21,6 +21,12 @@ impl FeoxStore {
             .map(|write_buffer| write_buffer.verif_shard_of(key))
     }
 
+    pub fn verif_requests_queued(&self) -> usize {
+        self.write_buffer
+            .as_ref()
+            .map_or(0, |write_buffer| write_buffer.verif_requests_queued())
+    }
+
     pub fn verif_clock_shard_of(&self, key: &[u8]) -> usize {
         self.version_clock.shard_index(key)
     }
